@@ -32,6 +32,7 @@ type c04Spec struct {
 	LowWind  []string `json:"low_wind,omitempty"`
 	Swapped  []string `json:"swapped,omitempty"` // days whose minimum and maximum temperature are exchanged in the file
 	Preco    bool     `json:"preco,omitempty"`
+	SentYear []string `json:"sent_year,omitempty"` // "year:col": the optional column holds the sentinel on every day of that calendar year
 	Kind     string   `json:"kind"` // label of the fault class
 }
 
@@ -120,6 +121,11 @@ func c04Specs(tier string, seed int) []c04Spec {
 					s.Kind = "sentinel-" + col + "-year-end"
 					s.Sent = []string{iso(y, 12, 31) + ":" + col, iso(y+2, 1, 1) + ":" + col}
 				})
+			}
+			// an optional column without any value in a later calendar year (after a year that has values)
+			for _, col := range []string{"sun", "verd"} {
+				with(func(s *c04Spec) { s.Kind = "column-empty-in-second-year-" + col; s.SentYear = []string{fmt.Sprintf("%d:%s", y+1, col)} })
+				with(func(s *c04Spec) { s.Kind = "column-empty-in-third-year-" + col; s.SentYear = []string{fmt.Sprintf("%d:%s", y+2, col)} })
 			}
 			// ---- inputs that do not cover every simulated day: the run must end with an error
 			with(func(s *c04Spec) { s.Kind = "uncovered series-ends-before-end-date same-year"; s.To = iso(y+2, 6, 29) })
@@ -216,6 +222,10 @@ func c04Write(root string, sp c04Spec, p *proj.Project) {
 	for _, s := range sp.Swapped {
 		swapped[s] = true
 	}
+	sentYear := map[string]bool{}
+	for _, s := range sp.SentYear {
+		sentYear[s] = true
+	}
 	val := func(t time.Time) (proj.Day, bool) {
 		k := t.Format("2006-01-02")
 		if gap[k] || t.Year() == sp.NoYear {
@@ -231,8 +241,11 @@ func c04Write(root string, sp c04Spec, p *proj.Project) {
 		if sent[k+":sun"] {
 			d.Sun = c04None
 		}
-		if sent[k+":verd"] {
+		if sent[k+":verd"] || sentYear[fmt.Sprintf("%d:verd", t.Year())] {
 			d.Verd = c04None
+		}
+		if sentYear[fmt.Sprintf("%d:sun", t.Year())] {
+			d.Sun = c04None
 		}
 		return d, true
 	}
@@ -319,6 +332,10 @@ func c04Run(raw json.RawMessage, c *mc.Ctx) {
 	for _, s := range sp.Swapped {
 		swappedDay[s] = true
 	}
+	sentYearRun := map[string]bool{}
+	for _, s := range sp.SentYear {
+		sentYearRun[s] = true
+	}
 	covered := !strings.HasPrefix(sp.Kind, "uncovered")
 	days := 0
 	var firstBad string
@@ -394,6 +411,22 @@ func c04Run(raw json.RawMessage, c *mc.Ctx) {
 			}
 			want := rec(t)
 			what := "wrong-record"
+			if sentYearRun[fmt.Sprintf("%d:%s", t.Year(), col)] {
+				// no value at all in this calendar year: whatever stands in for it, it must not be the record of the same
+				// day of an earlier year (or of any other date of the series)
+				c.Eval(1)
+				c.NonTrivial(h.I(7).Sum())
+				for back := 1; back <= 2; back++ {
+					if o := t.AddDate(-back, 0, 0); has(o) && !sentYearRun[fmt.Sprintf("%d:%s", o.Year(), col)] && got != 0 {
+						for _, shift := range []int{-1, 0, 1} { // same date or same day of the year
+							if got == rec(o.AddDate(0, 0, shift)) {
+								c.Violate("stale-value-of-an-earlier-year "+col+cls, fmt.Sprintf("%s: on %s the column %s has no value in the whole year, the model consumed %.10g = the record of %s", label, k, col, got, o.AddDate(0, 0, shift).Format("2006-01-02")), nil)
+							}
+						}
+					}
+				}
+				continue
+			}
 			if sent[k+":"+col] {
 				p, n := t.AddDate(0, 0, -1), t.AddDate(0, 0, 1)
 				if !has(p) || !has(n) {
